@@ -1161,8 +1161,10 @@ LEVEL_TEXT = ("Machine-checked theorems (Coq 8.16, closed under the global conte
               "included (C04_hidden_accepted) --, byte for byte unless the argument asked for ignore_case "
               "(C04_possible_exact); a stored ranged value of any width is a decimal whose unbounded reading lies in the "
               "declared bounds and in the type (65536 is no u16, 261 is not 5, -0 and 2^64 are no u64: C04_ranged_no_wrap, "
-              "C04_ranged_complete); and this reading holds at every level of what parse_top reports "
-              "(C04_parse_top_stored, C04_parse_top_root_stored).  The models are tied to "
+              "C04_ranged_complete); outside the documented language each of the ten parsers answers InvalidUtf8 / "
+              "InvalidValue / ValueValidation, InvalidUtf8 only for ill-formed input (C04_outside_reading_rejected), and "
+              "C10's language predicate is this language (C04_in_lang_reading); the reading holds at every level of what "
+              "parse_top reports (C04_parse_top_stored, C04_parse_top_root_stored).  The models are tied to "
               "clap_builder by running the extracted model and the real crate (direct parse_ref, full Command path, and the "
               "full parser on random command trees with typed arguments) on the same generated cases on every check, with "
               "an independent python oracle on the implementation's output.")
